@@ -29,7 +29,7 @@ EXTS = list(FASTA_EXTENSIONS)
 # ---- (1) labels: the extension-stripping function is decided by engine K on symbolic strings (props/C08.py); directory handling below
 
 DIRS = ['', 'd', 'a/b', '/abs/x.fasta', '..', 'x.gz']
-NAMES = ['a.fasta', 'sub/b.fa.gz', 'c', 'd.fna.gz', 'a.fasta', '../e.frn']
+NAMES = ['a.fasta', 'sub/b.fa.gz', 'c', 'd.fna.gz', 'other/a.fna', '../e.frn']      # two different files share the label 'a'
 LABELS = ['a', 'b', 'c', 'd', 'a', 'e']
 
 
@@ -61,7 +61,22 @@ class FakeSigs:
         return len(self.ids)
 
     def __iter__(self):
-        return iter([('sig-of', i) for i in self.ids])
+        return iter([sig_of(i) for i in self.ids])
+
+
+_SIG_IDS = {}
+
+
+def sig_of(key):
+    """A real (one-element) signature array that identifies what it was computed from."""
+    key = os.path.normpath(str(key))
+    _SIG_IDS.setdefault(key, len(_SIG_IDS) + 1)
+    return np.array([_SIG_IDS[key]], dtype='u4')
+
+
+def is_sig_of(sig, key):
+    key = os.path.normpath(str(key))
+    return isinstance(sig, np.ndarray) and sig.shape == (1,) and key in _SIG_IDS and int(sig[0]) == _SIG_IDS[key]
 
 
 def _rows_concrete(n, picks, channel, ldir_i, blank):
@@ -87,9 +102,16 @@ def _rows_concrete(n, picks, channel, ldir_i, blank):
         expect_paths = None
     expect_labels = [LABELS[p] for p in picks] if channel != 2 else [f'stored-{p}' for p in picks]
 
+    class SigTags(list):
+        """stands in for the SignatureList the real function returns: a sequence with the k-mer parameters attached"""
+        kmerspec = KS
+        dtype = np.dtype('u4')
+
     def calc_file_signatures(kspec, files, **kw):
-        rec['calc'] = [str(f.path) for f in files]
-        return [('sig-of', str(f.path)) for f in files]
+        rec['calc'] = (rec['calc'] or []) + [str(f.path) for f in files]
+        out = SigTags([sig_of(f.path) for f in files])
+        out.kmerspec = kspec
+        return out
 
     def load_signatures(path, **kw):
         return FakeSigs([f'stored-{p}' for p in picks])
@@ -136,11 +158,11 @@ def _rows_concrete(n, picks, channel, ldir_i, blank):
         if channel != 2:
             if it.input.file is None or os.path.normpath(str(it.input.file.path)) != os.path.normpath(expect_paths[i]):
                 return False, f'item {i} refers to file {it.input.file}, expected {expect_paths[i]}'
-            if os.path.normpath(rec['calc'][i]) != os.path.normpath(expect_paths[i]) or rec['queries'][i] != ('sig-of', rec['calc'][i]):
-                return False, f'signature {i} was computed from {rec["calc"][i]}'
+            if not is_sig_of(rec['queries'][i], expect_paths[i]):
+                return False, f'query signature {i} was not computed from {expect_paths[i]} (files parsed: {rec["calc"]})'
         else:
-            if rec['queries'][i] != ('sig-of', expect_labels[i]):
-                return False, f'query {i} is {rec["queries"][i]}'
+            if not is_sig_of(rec['queries'][i], expect_labels[i]):
+                return False, f'query {i} is not the stored signature {expect_labels[i]}'
     return True, None
 
 
